@@ -62,7 +62,7 @@ def main():
         "checks": checks,
         "not_applicable": na,
         "notes": "Verdict policy: exit 1 only for a violation of the property formula by the real code; exit 2 for infrastructure "
-                 "problems. Known findings: /verif/known_findings.json.",
+                 "problems. Known findings: /verif/known_findings.json. Extension modules beyond the listed properties (static source handler X01, recorder supervisor X02, HLS muxer lifecycle X03): ./check X01|X02|X03 [--tier ...], evidence in /verif/evidence_ext/, see DESIGN.md A7.",
     }
     with open(os.path.join(HERE, "MANIFEST.json"), "w") as fh:
         json.dump(man, fh, indent=1)
